@@ -238,3 +238,155 @@ def first_change(sched, start, horizon_days=3):
         if present_value(sched, x[0], x[1]) != s0:
             return x
     return None
+
+
+# ------------------------------------------------------------------ local civil time (daylight saving)
+#
+# A device's local clock under a POSIX TZ rule "std offset dst [offset],Mm.w.d[/time],Mm.w.d[/time]"
+# (IEEE 1003.1, 8.3), written from the text of that clause on integer arithmetic and calendar.timegm;
+# it does not use the platform's localtime/mktime (the harness cross-checks the two).
+#
+#   * offset is what must be ADDED to local time to get UTC (positive west of Greenwich); dst defaults
+#     to one hour ahead of std;
+#   * Mm.w.d = day d (0 = Sunday) of week w (1..5, 5 = last) of month m; time (default 02:00:00) is
+#     local time in effect BEFORE the change (std for the start rule, dst for the end rule).
+#
+# What the Schedule property can demand around a clock change (rule applied by the C20 check):
+#   * the value prescribed at an instant is the clause-12.24.4 value for the civil date and time the
+#     local clock shows at that instant;
+#   * civil times inside a skipped interval do not exist and are never judged; an entry whose time
+#     lies in the skipped interval is "on or before the current time" from the instant of the jump on
+#     (the clock then shows the end of the skipped interval), so it is due at the jump;
+#   * in a repeated interval the first pass is judged by its civil time; in the second pass two
+#     readings are admitted and reported separately: "civil" (the value for the civil time shown, i.e.
+#     entries inside the interval are undone and executed again) and "monotonic" (an entry executed
+#     once that day stays executed: the value for the latest civil time the clock has shown so far on
+#     that date).  They differ only between the start of the second pass and the last entry inside
+#     the interval; BACnet does not choose between them.
+
+import re as _re
+
+
+class TzRule(object):
+    _NAME = r"(?:[A-Za-z]{3,}|<[A-Za-z0-9+\-]+>)"
+    _OFF = r"[+\-]?\d{1,3}(?::\d{1,2}(?::\d{1,2})?)?"
+    _RX = _re.compile(r"^(%s)(%s)(?:(%s)(%s)?(?:,(M\d+\.\d\.\d)(?:/(%s))?,(M\d+\.\d\.\d)(?:/(%s))?)?)?$"
+                      % (_NAME, _OFF, _NAME, _OFF, _OFF, _OFF))
+
+    def __init__(self, spec):
+        m = self._RX.match(spec)
+        if not m:
+            raise ValueError("TZ rule not understood: %r" % (spec,))
+        self.spec = spec
+        self._memo = {}
+        std, stdoff, dst, dstoff, srule, stime, erule, etime = m.groups()
+        self.std_utcoff = -self._secs(stdoff)              # seconds to add to UTC to get local standard time
+        self.has_dst = dst is not None
+        if self.has_dst:
+            if srule is None:
+                raise ValueError("TZ rule without explicit change dates: %r" % (spec,))
+            self.dst_utcoff = -self._secs(dstoff) if dstoff else self.std_utcoff + 3600
+            self.start = (self._mwd(srule), self._secs(stime) if stime else 7200)
+            self.end = (self._mwd(erule), self._secs(etime) if etime else 7200)
+        else:
+            self.dst_utcoff = self.std_utcoff
+
+    @staticmethod
+    def _secs(text):
+        sign = -1 if text.startswith("-") else 1
+        parts = [int(p) for p in text.lstrip("+-").split(":")]
+        parts += [0] * (3 - len(parts))
+        return sign * (parts[0] * 3600 + parts[1] * 60 + parts[2])
+
+    @staticmethod
+    def _mwd(text):
+        m, w, d = (int(p) for p in text[1:].split("."))
+        if not (1 <= m <= 12 and 1 <= w <= 5 and 0 <= d <= 6):
+            raise ValueError("bad M rule %r" % (text,))
+        return (m, w, d)
+
+    @staticmethod
+    def _rule_date(year, mwd):
+        m, w, d = mwd
+        want = (d - 1) % 7                                  # datetime.weekday(): Monday = 0; rule: Sunday = 0
+        first = datetime.date(year, m, 1)
+        day = 1 + (want - first.weekday()) % 7 + 7 * (w - 1)
+        while day > month_length(year, m):
+            day -= 7
+        return datetime.date(year, m, day)
+
+    def jumps(self, year):
+        """[(instant, utc offset before, utc offset after)] of civil year `year`, in order of time."""
+        if not self.has_dst:
+            return []
+        if year in self._memo:
+            return self._memo[year]
+        out = []
+        for (mwd, secs), before, after in ((self.start, self.std_utcoff, self.dst_utcoff),
+                                           (self.end, self.dst_utcoff, self.std_utcoff)):
+            d = self._rule_date(year, mwd)
+            out.append((float(calendar.timegm((d.year, d.month, d.day, 0, 0, 0)) + secs - before), before, after))
+        self._memo[year] = sorted(out)
+        return self._memo[year]
+
+    def _all_jumps(self, x):
+        y = (datetime.datetime(1970, 1, 1) + datetime.timedelta(seconds=int(x // 1) + self.std_utcoff)).year
+        out = []
+        for yy in (y - 1, y, y + 1):
+            if 1 <= yy <= 9999:
+                out.extend(self.jumps(yy))
+        return sorted(out)
+
+    def utcoff(self, x):
+        """Seconds to add to the instant x (seconds since the epoch, UTC) to get the local clock reading."""
+        off = None
+        for (j, before, after) in self._all_jumps(x):
+            if j <= x:
+                off = after
+            elif off is None:
+                off = before
+        return self.std_utcoff if off is None else off
+
+    @staticmethod
+    def _split(local):
+        whole = int(local // 1)
+        hs = int((local - whole) * 100 + 1e-6)
+        dt = datetime.datetime(1970, 1, 1) + datetime.timedelta(seconds=whole)
+        return dt.date(), (dt.hour, dt.minute, dt.second, hs)
+
+    def civil(self, x, utcoff=None):
+        """(date, (h, m, s, hundredths)) the local clock shows at instant x."""
+        return self._split(x + (self.utcoff(x) if utcoff is None else utcoff))
+
+    def instants_of(self, d, t):
+        """Every instant at which the local clock shows date d, time t: none (skipped), one, or two (repeated)."""
+        naive = calendar.timegm((d.year, d.month, d.day, 0, 0, 0)) + t[0] * 3600 + t[1] * 60 + t[2] + t[3] / 100.0
+        out = []
+        for off in sorted(set((self.std_utcoff, self.dst_utcoff)), reverse=True):
+            x = float(naive - off)
+            if self.utcoff(x) == off and x not in out:
+                out.append(x)
+        return sorted(out)
+
+    def first_at_or_after(self, d, t):
+        """The first instant at which the local clock shows (d, t) or, if that reading is skipped, the instant
+        of the jump over it."""
+        xs = self.instants_of(d, t)
+        if xs:
+            return xs[0]
+        naive = calendar.timegm((d.year, d.month, d.day, 0, 0, 0)) + t[0] * 3600 + t[1] * 60 + t[2] + t[3] / 100.0
+        for (j, before, after) in self._all_jumps(naive):
+            if after > before and j + before <= naive < j + after:
+                return j
+        raise Undecided("no instant for %s %r" % (d, t))
+
+    def second_pass_limit(self, x):
+        """If instant x lies in the second pass of a repeated interval: the last civil (date, time) shown in the
+        first pass (one hundredth before the clock was set back), provided it is later than civil(x); else None."""
+        best = None
+        for (j, before, after) in self._all_jumps(x):
+            if after < before and j <= x < j + (before - after):
+                best = self.civil(j - 0.01, utcoff=before)
+        if best is not None and best > self.civil(x):
+            return best
+        return None
